@@ -13,7 +13,7 @@ PROPS = {
         partial="nothing is assumed about the length of a floating-point rendering (64 bytes and more go through the heap buffer of the repaired code). Two edges of the "
                 "domain are named in the theorems rather than hidden: a result of 2^28 bytes or more trips the documented size-limit assertion of ST::string (outcomes), "
                 "and libc's snprintf is assumed to report a positive size (Arg.LibcRenders) - glibc breaks that only for a precision of about 2^31, which could only ask for a "
-                "result beyond the 2^28 limit (outcomes_all_args is the statement without that hypothesis). Reads of the real machine are observed by ASan, not proved.",
+                "result beyond the 2^28 limit (outcomes_all_args is the statement without that hypothesis). Wide-text arguments (wchar_t/char16_t/char32_t pointers, strings, views) are covered under Arg.WideOk: units fit their C++ type and the text is below the documented 2^28-unit limit of the conversion functions; malformed wide text is ST::unicode_error (named by the property). Reads of the real machine are observed by ASan, not proved.",
         rule="every string over the 16-symbol critical alphabet { } _ . & 0 1 9 + - space x c < a \\x80 up to length 4 (quick) / 5 (thorough), each with 0 arguments and "
              "three argument lists drawn from a pool of 16 lists over int, unsigned, long long, char, wchar_t, char16_t, bool, const char*, null const char*, ST::string, "
              "std::string_view, float, double; grammar-directed random format strings (1-3 fields of 0-5 items in any order: flags, '_' + any pad byte, widths incl. numerals "
@@ -37,8 +37,9 @@ PROPS["C11"] = dict(
                "length_eq_max_int", "length_eq_max_text", "zero_pad_position", "zero_flag", "sequential_ignores_refs", "escape_braces",
                "literal_verbatim", "char_class_wide"),
     partial="floating-point arguments: the libc rendering is a parameter (C13) of any length, assumed non-empty (Arg.LibcRenders: snprintf reports a positive size, "
-            "which glibc breaks only for precisions of about 2^31, outside the domain); wide-string arguments (const wchar_t*/char16_t*/char32_t*) "
-            "are not modelled; string arguments shorter than 2^31 bytes, fewer than 2^64 arguments",
+            "which glibc breaks only for precisions of about 2^31, outside the domain); wide-text arguments (const wchar_t*/char16_t*/char32_t*, std::basic_string(_view) of those) are modelled as "
+            "'converted by from_utf16/from_utf32 under the default validation (C02's model), then formatted as text' for texts below the documented 2^28-unit limit "
+            "(Arg.WideOk); string arguments shorter than 2^31 bytes, fewer than 2^64 arguments",
     rule="cross product alignment {none,<,>} x pad {none, _*, 0, 0 then _*, _* then 0, _0} x width {0, |r|-1, |r|, |r|+1, |r|+2, 40, 70} x '#' x '+' x class "
          "{default,d,x,X,o,b,c} x &N x 4 item orders over boundary values (0, +-1, min, min+1, max, digit-count boundaries of each radix, code-point boundaries) of all "
          "eight integer types + char, wchar_t, char8_t, char16_t, char32_t, bool (quick: a seed-dependent sixth; thorough: all); strings (const char*, ST::string, "
@@ -74,11 +75,11 @@ MANIFEST_TEXT = {
              "definition over the list of format bytes (literal text with {{ }} reduced, field grammar, left-to-right vs &N selection, sign/prefix/digits, zero padding "
              "between prefix and digits, text cut to precision, UTF-8 of a code point or U+FFFD, pad run of max(0, width - natural length) bytes). Proved through parser = "
              "grammar, scanner = literal splitter, formatter_id = selection and every format_type overload = renderField for all eight integer types (w = 8..64), "
-             "five character types, bool, narrow strings, null strings and floats (libc rendering of any length as a parameter). Corollaries: never truncated, length = max(width, "
+             "five character types, bool, narrow strings (char and char8_t), wide text (UTF-16/32 pointers, strings, views), null pointers and floats (libc rendering of any length as a parameter). Corollaries: never truncated, length = max(width, "
              "natural), zero-pad position, sequential fields ignore &N, brace escapes. One genuine defect found by this check and repaired: {c} of a 64-bit integer "
              "tested the code-point range after narrowing to int. Tied to the code by the flag cross product over boundary values of every argument type, byte-exact.",
         design_ref="DESIGN.md section 3, C11; notes/C11.md",
         note="Trusted: Lean kernel + 3 standard axioms; Spec/Render.lean as the meaning of the property (readings chosen are listed in DESIGN C11); Fmt.strtol10; "
-             "floating-point renderings are a parameter (C13); wide-string arguments are not modelled.",
+             "floating-point renderings are a parameter (C13); wide-text arguments render as the reference transcoding (C02's Spec) of their units, malformed wide text is unicode_error.",
         technique="Lean 4 proof (refinement of a pointer-walking parser and sink-event renderer to a list-level spec) + differential correspondence under ASan/UBSan"),
 }
